@@ -15,7 +15,8 @@ class OffLattice(Exception):
     pass
 
 
-def lattice_objects(rng, n_ups=None, allow_delete=True, server_types=("autoscaling", "serverless", "on-premise")):
+def lattice_objects(rng, n_ups=None, allow_delete=True, server_types=("autoscaling", "serverless", "on-premise"),
+                    with_fixed=False):
     """random abstract model + lattice inputs. Returns (model, I)."""
     m, I = {}, {"t": {}, "job": {}, "sv": {}, "st": {}, "net": {}, "ci": {}, "tz": {}, "dev": {}, "up": {}}
     n_srv = rng.randint(1, 2)
@@ -24,9 +25,12 @@ def lattice_objects(rng, n_ups=None, allow_delete=True, server_types=("autoscali
         st = {"repl": rng.choice([1, 2, 3]), "durh": rng.choice([1, 2, 3, 1000]), "base": rng.choice([0, 0, 600, 5000]),
               "cap": cap, "fabrate": rng.choice([20, 160]), "power": rng.choice([2, 13]), "idle": rng.choice([0, 1]),
               "fixed": 0}
+        if with_fixed and rng.random() < 0.35:
+            st["fixed"] = rng.choice([1, 3, 50])
         I["st"][f"sto{i}"] = st
         m[f"sto{i}"] = efx.new_obj(
-            "Storage", carbon_footprint_fabrication_per_storage_capacity=[st["fabrate"] / cap, "kg/kB"],
+            "Storage", fixed_nb=(st["fixed"] or None),
+            carbon_footprint_fabrication_per_storage_capacity=[st["fabrate"] / cap, "kg/kB"],
             power_per_storage_capacity=[st["power"] / cap, "W/kB"], lifespan=[LIFESPAN_H, "hour"],
             idle_power=[st["idle"], "W"], storage_capacity=[cap, "kB"],
             data_replication_factor=[st["repl"], "dimensionless"], data_storage_duration=[st["durh"], "hour"],
@@ -39,9 +43,15 @@ def lattice_objects(rng, n_ups=None, allow_delete=True, server_types=("autoscali
               "power": rng.choice([300, 400]), "idle": rng.choice([50, 100]), "pue": rng.choice([1, 2]),
               "ci": rng.choice([10, 20]), "util": util, "ram": (avail_ram + baseram) * 100 // util,
               "baseram": baseram, "cpu": (avail_cpu + basecpu) * 100 // util, "basecpu": basecpu}
+        if with_fixed and sv["type"] == "on-premise" and rng.random() < 0.6:
+            sv["fixed"] = rng.choice([1, 2, 5, 40])
+        if with_fixed and rng.random() < 0.06:
+            sv["baseram"] = sv["ram"] * util // 100 + 10        # more than the instance offers: must be refused
         I["sv"][f"sv{i}"] = sv
+        baseram = sv["baseram"]
         m[f"sv{i}"] = efx.new_obj(
-            "Server", storage=f"sto{i}", server_type=sv["type"], carbon_footprint_fabrication=[sv["fabrate"], "kg"],
+            "Server", storage=f"sto{i}", server_type=sv["type"], fixed_nb=(sv["fixed"] or None),
+            carbon_footprint_fabrication=[sv["fabrate"], "kg"],
             power=[sv["power"], "W"], lifespan=[LIFESPAN_H, "hour"], idle_power=[sv["idle"], "W"],
             ram=[sv["ram"] * 100, "MB"], compute=[sv["cpu"] / 10, "cpu_core"],
             power_usage_effectiveness=[sv["pue"], "dimensionless"], average_carbon_intensity=[sv["ci"], "g/kWh"],
@@ -173,3 +183,41 @@ def observe(ns, live, model, I, names=None):
             else:
                 obs.append(dict(k=kind, o=n, u="-", a=attr, **series(ns, val, unit, sc, f"{n}.{attr}")))
     return obs
+
+
+def lattice_edit(rng, model, I):
+    """one edit that keeps the model on the lattice: returns (edit for efx.apply_edit_*, new I)"""
+    import copy
+    I2 = copy.deepcopy(I)
+    jobs = sorted(I["job"])
+    kind = rng.choice(["ram", "cpu", "starts", "fixed", "ds", "dur"])
+    if kind in ("ram", "cpu"):
+        j = rng.choice(jobs)
+        f = rng.choice([2, 5, 20, 60])
+        I2["job"][j][kind] *= f
+        if kind == "ram":
+            return ("input", j, "ram_needed", [I2["job"][j]["ram"] * 100, "MB"]), I2
+        return ("input", j, "compute_needed", [I2["job"][j]["cpu"] / 10, "cpu_core"]), I2
+    if kind == "starts":
+        u = rng.choice(sorted(I["up"]))
+        f = rng.choice([2, 3, 10])
+        I2["up"][u]["vals"] = [x * f for x in I["up"][u]["vals"]]
+        return ("opt", u, "starts", [I2["up"][u]["vals"], model[u]["opt"]["start"]]), I2
+    if kind == "fixed":
+        cands = [v for v in sorted(I["sv"]) if I["sv"][v]["type"] == "on-premise"]
+        if not cands:
+            return lattice_edit(rng, model, I)
+        v = rng.choice(cands)
+        I2["sv"][v]["fixed"] = rng.choice([1, 2, 5, 40])
+        return ("opt", v, "fixed_nb", I2["sv"][v]["fixed"]), I2
+    if kind == "ds":
+        j = rng.choice(jobs)
+        I2["job"][j]["ds"] = rng.choice([0, 6, 60, 600, -6])
+        if I2["job"][j]["ds"] == I["job"][j]["ds"]:
+            return lattice_edit(rng, model, I)
+        return ("input", j, "data_stored", [I2["job"][j]["ds"], "kB"]), I2
+    j = rng.choice(jobs)
+    I2["job"][j]["dur"] = rng.choice([1, 2, 4, 6, 10])
+    if I2["job"][j]["dur"] == I["job"][j]["dur"]:
+        return lattice_edit(rng, model, I)
+    return ("input", j, "request_duration", [15 * I2["job"][j]["dur"], "min"]), I2
